@@ -482,6 +482,7 @@ func parseIntLit(s string) string {
 // ---------------------------------------------------------------- ghost statements
 // stmt := lhs '=' expr | lhs '+=' expr | lhs '++' | 'forall' x 'in' '[' lo ',' hi ')' ':' m '[' x ']' '=' expr
 type GhostStmt struct {
+	Assume  Expr // `assume e`: a trusted fact about the environment (listed in the trusted base)
 	Guard   Expr // optional: `when cond`
 	LHS     Expr
 	RHS     Expr
@@ -506,6 +507,15 @@ func ParseGhostStmts(src string) (out []GhostStmt, err error) {
 		}
 		p := &sparser{toks: toks, src: part}
 		var g GhostStmt
+		if p.isId("assume") {
+			p.next()
+			g.Assume = p.expr()
+			if p.peek().kind != "eof" {
+				panic(fmt.Sprintf("ghost assume: trailing input in %q", part))
+			}
+			out = append(out, g)
+			continue
+		}
 		if p.isId("forall") {
 			p.next()
 			g.BulkVar = p.next().s
